@@ -129,6 +129,11 @@ def r1(ctx, res):
             good = not b_.guards and isinstance(b_.elt, ast.JoinedStr) and \
                 (match(_parse(f"f'{{{k_}}}={{repr({v_})}}'"), b_.elt) is not None or match(_parse(f"f'{{{k_}}}={{{v_}!r}}'"), b_.elt) is not None)
             kw_ok = good if kw_ok is None else (kw_ok and good)
+    for x in walk_own(var_):
+        if isinstance(x, ast.Call) and dotted(x.func) == "filter" and len(x.args) == 2 and norm(x.args[1]) in ("self.args", "self.kwargs.items()"):
+            pos_ok = False   # values are dropped before they are rendered
+    if pos_ok is False or kw_ok is False:
+        pos_ok, kw_ok = bool(pos_ok), bool(kw_ok)
     res.judge(None if (pos_ok is None or kw_ok is None) else (pos_ok and kw_ok), ar,
               "every positional and keyword value is rendered with repr()", reason="values come back as Python expressions, none filtered")
     cr = ctx.func("custom_repr")
@@ -527,16 +532,39 @@ def n3(ctx, res):
     from .norm import view
     o = dd.params[1].name
     vb = view(dd, ctx.prog).body
+    # locals read as what they stand for (the name is read BEFORE the class is renamed, so aliases are kept by the
+    # normaliser; here only their text matters)
+    from .norm import _subst_expr
+    env = {}
+    for st in walk_own(vb):
+        if isinstance(st, (ast.Assign, ast.AnnAssign)) and st.value is not None:
+            tg = st.targets[0] if isinstance(st, ast.Assign) and len(st.targets) == 1 else getattr(st, "target", None)
+            if isinstance(tg, ast.Name):
+                env[tg.id] = st.value if tg.id not in env else None
+    env = {k: v for k, v in env.items() if v is not None}
+
+    def R(e):
+        for _ in range(3):
+            e = _subst_expr(e, env)
+        return norm(e)
     cnt = f"len(self.seen[{o}.__name__])"
-    renames = find(f"{o}.__name__ = {o}.__name__ + f'_{{{cnt}}}'", vb)
     okd = None
+    renames = [st for st in walk_own(vb) if isinstance(st, ast.Assign) and any(norm(t) == f"{o}.__name__" for t in st.targets)]
     if renames:
-        gs = flat_guards(Parents(vb), renames[0][0])
-        okd = any(norm(strip_not(t, pol)[0]) == cnt and strip_not(t, pol)[1] for t, pol in gs) or \
-            any((cmp_atom(t, pol) or ("",) * 3)[:3] in ((cnt, ">", "0"), (cnt, "!=", "0"), (cnt, ">=", "1")) for t, pol in gs)
-        okd = okd and has(f"self.seen[{o}.__name__].append({o})", vb)
-    elif any(isinstance(n, ast.Assign) and any(norm(t) == f"{o}.__name__" for t in n.targets) for n in walk_own(vb)):
-        okd = False
+        rn = renames[0]
+        val_ok = R(rn.value) in (f"{o}.__name__ + f'_{{{cnt}}}'", f"f'{{{o}.__name__}}_{{{cnt}}}'", f"{o}.__name__ + '_' + str({cnt})")
+        gs = flat_guards(Parents(vb), rn)
+        guard_ok = False
+        for t, pol in gs:
+            t0, p0 = strip_not(t, pol)
+            if R(t0) == cnt and p0:
+                guard_ok = True
+            c = cmp_atom(t, pol)
+            if c and (R(c[3]), c[1], c[2]) in ((cnt, ">", "0"), (cnt, "!=", "0"), (cnt, ">=", "1")):
+                guard_ok = True
+        appended = any(isinstance(x, ast.Call) and isinstance(x.func, ast.Attribute) and x.func.attr == "append"
+                       and R(x.func.value) == f"self.seen[{o}.__name__]" and x.args and norm(x.args[0]) == o for x in walk_own(vb))
+        okd = True if (val_ok and guard_ok and appended) else (False if not val_ok and "_" not in R(rn.value) else None)
     res.judge(okd, dd, "repeated titles get a numeric suffix", reason="distinct classes with one title get distinct names")
     tf = ctx.func("_title_format")
     delim, seg = _title_patterns(ctx, tf)
@@ -632,7 +660,12 @@ def a1(ctx, res):
                   reason="what the type validator admits belongs to the announced type (an int under float is tolerated)")
     # Element.annotation reads the Generic argument of the class
     ea = ctx.cls("Element").props["annotation"]["get"]
-    res.check(has("type(self).__orig_bases__[0].__args__[0]", ea) and has("return 'Any'", ea) and has("return MV_g.__name__", ea), ea,
+    from .paths import ret_expr as _re_
+    from .norm import view as _view
+    rets_ea = {norm(_re_(p_)) for p_ in enumerate_paths(_view(ea, ctx.prog).body) if p_.exit == "return" and _re_(p_) is not None}
+    ok_ea = has("type(self).__orig_bases__[0].__args__[0]", ea) and "'Any'" in rets_ea and any(r_.endswith(".__name__") for r_ in rets_ea) \
+        and len(rets_ea) == 2
+    res.judge(True if ok_ea else None, ea,
               "generic argument name, or Any for the un-typed element", reason="annotation is read from the class header")
     om = ctx.cls("ObjectMeta").props["annotation"]["get"]
     res.check(has("return cls.__name__", om), om, "return cls.__name__", reason="a model class is annotated by its own name")
@@ -714,7 +747,13 @@ def a2(ctx, res):
     def lab_i(p):
         if p.exit != "return" or p.exit_node.value is None:
             return p.exit
-        t = norm(p.exit_node.value)
+        e_ = p.exit_node.value
+        if isinstance(e_, ast.Name):
+            from .paths import ret_expr
+            r_ = ret_expr(p)
+            if r_ is not None and not (isinstance(r_, ast.ListComp) and norm(r_.generators[0].iter) == "self.items"):
+                e_ = r_
+        t = norm(e_)
         added = any(isinstance(s_, ast.Expr) and norm(s_.value) == f"{an}.append(self.additionalItems.annotation)" for s_ in p.stmts
                     if isinstance(s_, ast.AST))
         if t == "[self.items.annotation]":
